@@ -82,7 +82,7 @@ mod cache_locality;
 
 // Core ZiporaHashMap implementation
 pub use zipora_hash_map::{
-    ZiporaHashMap, ZiporaHashMapConfig, HashMapStats,
+    ZiporaHashMap, ZiporaHashMapConfig, ZiporaHashMapIterator, HashMapStats,
     HashStrategy, StorageStrategy, OptimizationStrategy,
 };
 
